@@ -15,8 +15,10 @@ MODELLED = ["Python dict (as association list with unique keys)", "str equality 
 
 # the two value domains overlap on purpose ("alpha", "beta", "x" are both a name and an address): names and
 # addresses live in separate maps, an entry of one never touches an equal key of the other
-NAMES = [None, "alpha", "beta", "gamma", "x", ["n", 1]]
-ADDRS = [None, "/tmp/a", "alpha", "beta", "x", ["127.0.0.1", 5000]]
+import pathlib
+NAMES = [None, "alpha", "beta", "gamma", "x", ["n", 1], ("n", 7)]
+ADDRS = [None, "/tmp/a", "alpha", "beta", "x", ["127.0.0.1", 5000], pathlib.PurePosixPath("/run/p")]
+OBJECT = 6          # index 6 is a hashable key that is not a str: a tuple name, an os.PathLike address -- kept as given
 UNHASHABLE = 5      # index 5 is an unhashable value (a list, e.g. a (host, port) pair that came back from JSON):
                     # every operation must refuse it (TypeError) without changing anything; such cases are outside
                     # the Coq model (names/addresses are N there) and are decided by the oracle alone
@@ -69,6 +71,10 @@ def generate(rng, tier):
             hi = rng.choice([2, 3, 4])
             a = rng.randint(0, hi) if rng.random() < 0.15 else rng.randint(1, hi)
             b = rng.randint(0, hi) if rng.random() < 0.15 else rng.randint(1, hi)
+            if rng.random() < 0.05:
+                a = OBJECT
+            if rng.random() < 0.05:
+                b = OBJECT
             if rng.random() < 0.004:
                 a = UNHASHABLE
             if rng.random() < 0.004:
@@ -88,6 +94,10 @@ def _fresh(v):
     if isinstance(v, str):
         w = v.encode("utf-8").decode("utf-8")
         return w
+    if isinstance(v, pathlib.PurePath):
+        return pathlib.PurePosixPath(str(v))
+    if isinstance(v, tuple):
+        return tuple(list(v))
     return list(v) if isinstance(v, list) else v
 
 
@@ -158,8 +168,15 @@ def run_impl(case):
         except Exception as ex:
             results.append(["exc", exn_kind(ex)])
     probe("after the last op")
-    abn = sorted([NAMES.index(k), ADDRS.index(v)] for k, v in nm.addrByName.items())
-    nba = sorted([ADDRS.index(k), NAMES.index(v)] for k, v in nm.nameByAddr.items())
+    def idx(table, v):      # -1: the registry holds something that was never given to it in this form
+        return next((n for n, w in enumerate(table) if type(w) is type(v) and w == v), -1)
+    abn = sorted([idx(NAMES, k), idx(ADDRS, v)] for k, v in nm.addrByName.items())
+    nba = sorted([idx(ADDRS, k), idx(NAMES, v)] for k, v in nm.nameByAddr.items())
+    foreign = None
+    if any(-1 in p for p in abn + nba):
+        foreign = f"the registry holds a key or value in a form it was never given: {nm.addrByName} / {nm.nameByAddr}"
+        abn = [[x if x >= 0 else 999 for x in p] for p in abn]
+        nba = [[x if x >= 0 else 999 for x in p] for p in nba]
     # snapshots after every op for the oracle
     # the two properties hand out copies: a caller that edits what it was given does not reach the registry
     before = (dict(nm._addrByName), dict(nm._nameByAddr)) if hasattr(nm, "_addrByName") else None
@@ -167,9 +184,9 @@ def run_impl(case):
     a["__edited__"] = "/edited"; a.pop(next(iter(a)), None)
     b["/edited2"] = "__edited2__"; b.pop(next(iter(b)), None)
     leak = None
-    if (nm.addrByName, nm.nameByAddr) != (dict((NAMES[k], ADDRS[v]) for k, v in abn), dict((ADDRS[k], NAMES[v]) for k, v in nba)):
+    if not foreign and (nm.addrByName, nm.nameByAddr) != (dict((NAMES[k], ADDRS[v]) for k, v in abn), dict((ADDRS[k], NAMES[v]) for k, v in nba)):
         leak = f"editing the dicts returned by .addrByName/.nameByAddr changed the registry: {nm.addrByName} / {nm.nameByAddr}"
-    return {"raised": None, "results": results, "abn": abn, "nba": nba, "leak": leak, "lookup": lookup[0]}
+    return {"raised": None, "results": results, "abn": abn, "nba": nba, "leak": leak or foreign, "lookup": lookup[0]}
 
 
 def oracle(case, obs):
